@@ -1767,6 +1767,22 @@ class FnTranslator:
         if me['kind'] != 'MemberExpr':
             raise Unsupported('member call through %s' % me['kind'])
         obj = self.only(me)
+        if me.get('name') == 'at' and len(args) == 1:
+            # G.at(i) on a constant std::array global: accessor over the initialiser list + the range check of array::at
+            o_ = obj
+            while o_.get('kind') in ('ImplicitCastExpr', 'ParenExpr'):
+                o_ = self.only(o_)
+            rd_ = o_.get('referencedDecl') or {}
+            if o_.get('kind') == 'DeclRefExpr' and rd_.get('kind') == 'VarDecl' and rd_.get('id') in self.P.globals and \
+                    re.match(r'^const std::array<', (o_.get('type') or {}).get('qualType', '')):
+                q_, gnode = self.P.globals[rd_['id']]
+                fname, cnt, et_ = self.U.global_array_at(q_, gnode)
+                self.hit('std::array constant: at()')
+                tn = self.tmp('i')
+                self.pre.append('size_t %s = (size_t)(%s);' % (tn, self.ex(args[0])))
+                self.pre.append('if (%s >= %d) verif_exc = EXC_std_out_of_range;' % (tn, cnt))
+                self.after_call(True)
+                return '%s(%s)' % (fname, tn)
         ot = strip_ref(self.T(obj))
         if me.get('isArrow'):
             if ot[0] == 'ptr':
